@@ -34,3 +34,74 @@ Proof. exact c08_bounded_lemma. Qed.
 
 Theorem c08_policy_is_decision : forall c s now, should_publish c s now = true <-> policy c s now.
 Proof. exact should_publish_iff. Qed.
+
+(* ------------------------------------------------------------------------------------------------------
+   C08 over WHOLE RUNS (Proofs/RunLog.v, Proofs/RunLogProps.v; vocabulary explained in Props/C06.v).
+   The ghost of a log prefix holds, for the round in progress, the instant it started [g_start], its send log
+   and its genuine answers [g_A] - all read off the observation log, never off the tracer state.
+   [found A]: some genuine answer of the round came from the target; [last_recv A]: receive time of the latest. *)
+From TV Require Import Proofs.RoundHistory Proofs.RunLog Proofs.RunLogProps.
+
+(* only when: every round published in any run satisfies the policy at the reading update_round took, measured
+   from the start of that round and from its genuine answers; and the reason tells which *)
+Theorem c08_run_publish_only_when : forall c t0 is l1 r now adv l2, Accept c ->
+  run_log c t0 is = l1 ++ OPublish r now adv :: l2 ->
+  let g := ghost_after c t0 l1 in
+  (let dur := Z.max 0 (now - g_start g) in
+   max_round_duration c < dur \/
+   (min_round_duration c < dur /\ found (g_A g) = true /\
+    exists t, last_recv (g_A g) = Some t /\ grace_duration c < Z.max 0 (now - t))) /\
+  (rr_reason r = TargetFound <-> found (g_A g) = true) /\
+  (rr_reason r = RoundTimeLimitExceeded -> found (g_A g) = false /\ max_round_duration c < Z.max 0 (now - g_start g)).
+Proof. exact c08_run_publish_lemma. Qed.
+
+(* exactly when: a reading of update_round that leaves the round open does not satisfy the policy *)
+Theorem c08_run_open_only_when_not : forall c t0 is l1 now l2, Accept c ->
+  run_log c t0 is = l1 ++ OUpdate now :: l2 ->
+  let g := ghost_after c t0 l1 in
+  let dur := Z.max 0 (now - g_start g) in
+  ~ (max_round_duration c < dur \/
+     (min_round_duration c < dur /\ found (g_A g) = true /\
+      exists t, last_recv (g_A g) = Some t /\ grace_duration c < Z.max 0 (now - t))).
+Proof. exact c08_run_no_publish_lemma. Qed.
+
+(* the next round starts at the instant the previous one is published: the start the two theorems above measure
+   from is t0 for the first round and, for every later round, the clock reading advance_round took right after
+   the publish callback of the round before *)
+Theorem c08_round_starts_at_publish : forall c t0,
+  (forall mid, no_publish mid -> g_start (ghost_after c t0 mid) = t0) /\
+  (forall l1 r now adv mid, no_publish mid -> g_start (ghost_after c t0 (l1 ++ OPublish r now adv :: mid)) = adv).
+Proof. exact c08_round_start_lemma. Qed.
+
+(* never held open longer than max-round-duration plus one read timeout.  Environment assumption [paced D]: each
+   reading of update_round is at most D later than the previous reading of the update / advance clock (t0 for the
+   first) - one pass of the loop, i.e. a send and one bounded wait for a response.  Then every reading that leaves
+   a round open lies at most max after the start of that round, and the reading that publishes it at most max + D. *)
+Theorem c08_held_open_bound : forall c t0 is D, Accept c ->
+  paced D t0 (run_log c t0 is) -> held_ok c D t0 (run_log c t0 is).
+Proof. exact c08_held_open_lemma. Qed.
+
+(* the ghost is what the code holds: at the end of every run that did not fail the inputs of the completion
+   decision in the tracer state - round_start, received_time, target_found - are the ghost of the log *)
+Theorem c08_state_is_ghost : forall c t0 is ev o sf, Accept c -> run c t0 is = (ev, o, sf) ->
+  (forall e, o <> Failed_with e) ->
+  let g := ghost_after c t0 (run_log c t0 is) in
+  round_start sf = g_start g /\ received_time sf = last_recv (g_A g) /\ target_found sf = found (g_A g).
+Proof. intros c t0 is ev o sf HA E Hne. exact (proj2 (ghost_is_state_lemma c t0 is ev o sf HA E Hne)). Qed.
+
+(* non-vacuity on the example run of Proofs/RunLogProps.v (target found in round 0, time limit in round 1; consecutive
+   readings at most 29 apart) *)
+Example c08_ex_reasons :
+  map rr_reason (pubs (fst (fst (run rl_ex_cfg 0 rl_ex_ins)))) = [TargetFound; RoundTimeLimitExceeded].
+Proof. vm_compute. reflexivity. Qed.
+
+Example c08_ex_paced : paced 29 0 (run_log rl_ex_cfg 0 rl_ex_ins).
+Proof. lazy. repeat split; discriminate. Qed.
+
+Example c08_ex_publish : exists l1 r now adv l2,
+  run_log rl_ex_cfg 0 rl_ex_ins = l1 ++ OPublish r now adv :: l2 /\ now = 11 /\ adv = 12 /\
+  g_start (ghost_after rl_ex_cfg 0 l1) = 0.
+Proof.
+  exists (firstn 13 (run_log rl_ex_cfg 0 rl_ex_ins)). eexists _, _, _. exists (skipn 14 (run_log rl_ex_cfg 0 rl_ex_ins)).
+  split; [lazy; reflexivity|]. lazy. repeat split.
+Qed.
